@@ -204,6 +204,74 @@ Proof.
   - unfold P. rewrite isort_map_fst, map_fst_combine; auto. rewrite seq_length; auto.
 Qed.
 
+(* the positions kept by a filter select exactly the filtered list *)
+Lemma filter_positions {A} (p : A -> bool) (l : list A) d :
+  map (fun i => nth i l d) (filter (fun i => p (nth i l d)) (seq 0 (length l))) = filter p l.
+Proof.
+  induction l as [|x t IH]; [reflexivity|].
+  simpl length. change (seq 0 (S (length t))) with (0 :: seq 1 (length t)).
+  rewrite <- seq_shift. simpl filter. rewrite filter_map_swap.
+  destruct (p x); simpl map; rewrite map_map; simpl; rewrite IH; reflexivity.
+Qed.
+
+(* sorting commutes with a map that is strictly monotone on the list *)
+Lemma isort_ins_map_mono (f : nat -> nat) x l :
+  (forall a b, In a (x :: l) -> In b (x :: l) -> Nat.leb (f a) (f b) = Nat.leb a b) ->
+  isort_ins Nat.leb (f x) (map f l) = map f (isort_ins Nat.leb x l).
+Proof.
+  induction l as [|y t IH]; intros H; simpl; [reflexivity|].
+  rewrite (H x y) by (simpl; auto). destruct (Nat.leb x y); simpl; [reflexivity|].
+  f_equal. apply IH. intros a b Ha Hb. apply H; simpl in *; tauto.
+Qed.
+
+Lemma sort_nat_map_mono (f : nat -> nat) l :
+  (forall a b, In a l -> In b l -> Nat.leb (f a) (f b) = Nat.leb a b) ->
+  sort_nat (map f l) = map f (sort_nat l).
+Proof.
+  induction l as [|x t IH]; intros H; [reflexivity|].
+  unfold sort_nat, isort in *. simpl. rewrite IH by (intros; apply H; simpl; auto).
+  apply isort_ins_map_mono. intros a b Ha Hb. apply H.
+  - destruct Ha as [<-|Ha]; [left; auto|right]. apply (Permutation_in _ (isort_perm Nat.leb t)). exact Ha.
+  - destruct Hb as [<-|Hb]; [left; auto|right]. apply (Permutation_in _ (isort_perm Nat.leb t)). exact Hb.
+Qed.
+
+(* a permutation of 0..n-1, sorted, is 0..n-1 *)
+Lemma sort_nat_perm_seq l n : Permutation l (seq 0 n) -> sort_nat l = seq 0 n.
+Proof.
+  intros P. apply ss_lt_ext.
+  - apply ss_le_nodup_lt; [apply sort_nat_sorted|].
+    apply (Permutation_NoDup (Permutation_sym (Permutation_trans (sort_nat_perm l) P))). apply seq_NoDup.
+  - apply ss_seq.
+  - intros x. split; intros Hx.
+    + apply (Permutation_in _ P). apply (Permutation_in _ (sort_nat_perm l)). exact Hx.
+    + apply (Permutation_in _ (Permutation_sym (sort_nat_perm l))).
+      apply (Permutation_in _ (Permutation_sym P)). exact Hx.
+Qed.
+
+(* np.argsort(np.argsort(l)) is the rank: position of l[u] in np.sort(l) *)
+Lemma argsort_argsort_rank l u :
+  u < length l ->
+  nth u (argsort_nat (argsort_nat l)) 0 < length l /\ nth (nth u (argsort_nat (argsort_nat l)) 0) (sort_nat l) 0 = nth u l 0.
+Proof.
+  intros Hu. set (a := argsort_nat l). set (r := argsort_nat a).
+  assert (La : length a = length l) by apply argsort_length.
+  assert (Lr : length r = length l) by (unfold r; rewrite argsort_length; auto).
+  assert (Hm : nth u r 0 < length l).
+  { assert (Hin : In (nth u r 0) r) by (apply nth_In; lia).
+    apply (Permutation_in _ (argsort_perm a)) in Hin. apply in_seq in Hin. lia. }
+  split; auto.
+  assert (Har : nth (nth u r 0) a 0 = u).
+  { pose proof (argsort_take a) as T. fold r in T.
+    rewrite (sort_nat_perm_seq a (length l)) in T by apply argsort_perm.
+    rewrite <- La in T.
+    apply (f_equal (fun x => nth u x 0)) in T.
+    rewrite (nth_map_lt (fun p => nth p a 0) r u 0 0) in T by lia.
+    rewrite seq_nth in T by lia. exact T. }
+  pose proof (argsort_take l) as T. fold a in T. rewrite <- T.
+  rewrite (nth_map_lt (fun p => nth p l 0) a (nth u r 0) 0 0) by lia.
+  rewrite Har. reflexivity.
+Qed.
+
 (* ------------------------------------------------------- comparison axioms *)
 Record cmp_order {K} (cmp : K -> K -> comparison) : Prop := {
   co_refl : forall x, cmp x x = Eq;
@@ -477,26 +545,52 @@ Proof.
 Qed.
 End NubSpec.
 
+(* np.unique: the first-occurrence rows come in strictly increasing key order *)
+Section NpUniqueSpec3.
+Context {K : Type} (cmp : K -> K -> comparison) (CO : cmp_order cmp).
+Lemma co_eq_r x y z : cmp x y = Eq -> cmp z x = cmp z y.
+Proof. intros H. rewrite (co_sym _ CO x z), (co_sym _ CO y z), (co_eq _ CO x y z H). auto. Qed.
+
+Lemma npu_idx_lt (rows : list K) (d : K) a b :
+  let idx := snd (fst (np_unique cmp rows)) in
+  a < b -> b < length idx ->
+  cmp (nth (nth a idx 0) rows d) (nth (nth b idx 0) rows d) = Lt.
+Proof.
+  intros idx Hab Hb. unfold idx in Hb. rewrite (npu_len_idx cmp rows) in Hb.
+  assert (Ha : a < length (usort cmp rows)) by lia.
+  destruct (npu_idx_spec cmp CO rows d a Ha) as [_ [Ea _]].
+  destruct (npu_idx_spec cmp CO rows d b Hb) as [_ [Eb _]].
+  fold idx in Ea, Eb.
+  pose proof (ss_nth _ _ d (usort_sorted cmp CO rows) a b Hab Hb) as L. unfold slt in L.
+  apply (keq_true cmp) in Ea. apply (keq_true cmp) in Eb.
+  rewrite (co_eq _ CO _ _ _ Ea), (co_eq_r _ _ _ Eb). exact L.
+Qed.
+End NpUniqueSpec3.
+
 (* --------------------------------------------------------- Object3d.unique *)
 Section ObjSpec.
 Context {E K : Type} (cmp : K -> K -> comparison) (CO : cmp_order cmp)
         (rnd : E -> E) (iszero : E -> bool) (key : E -> K) (d : E).
 Variable flat : list E.
 Let data := obj_data rnd iszero flat.
+Let nz := obj_nzpos rnd iszero d flat.
 Let keys := map key data.
+Let idx0 := snd (fst (np_unique cmp keys)).
+Let inv0 := snd (np_unique cmp keys).
 Let out := fst (fst (obj_unique cmp rnd iszero key d flat)).
 Let idx := snd (fst (obj_unique cmp rnd iszero key d flat)).
 Let inv := snd (obj_unique cmp rnd iszero key d flat).
+Let f := fun i => nth i nz 0.
 
-Lemma obj_idx_eq : idx = snd (fst (np_unique cmp keys)). Proof. reflexivity. Qed.
-Lemma obj_inv_eq : inv = snd (np_unique cmp keys). Proof. reflexivity. Qed.
-Lemma obj_out_eq : out = map (fun i => nth i data d) (sort_nat idx). Proof. reflexivity. Qed.
+Lemma obj_idx_eq : idx = map f idx0. Proof. reflexivity. Qed.
+Lemma obj_inv_eq : inv = map (fun u => nth u (argsort_nat (argsort_nat idx)) 0) inv0. Proof. reflexivity. Qed.
+Lemma obj_out_eq : out = map (fun i => nth i data d) (sort_nat idx0). Proof. reflexivity. Qed.
 
 (* the returned elements are exactly the first-appearance de-duplication of
    the rounded, zero-free data *)
 Lemma obj_out_nubk : out = nubk cmp key data.
 Proof.
-  rewrite obj_out_eq, obj_idx_eq. rewrite (npu_sort_idx cmp CO keys (key d)).
+  rewrite obj_out_eq. unfold idx0. rewrite (npu_sort_idx cmp CO keys (key d)).
   apply (firsts_nubk cmp CO key data d).
 Qed.
 
@@ -521,67 +615,200 @@ Proof.
   exists e. repeat split; auto. destruct (iszero (rnd e)); auto; discriminate.
 Qed.
 
-Lemma obj_len_idx : length idx = length out.
+(* ---- np.flatnonzero(is_nonzero): the kept positions *)
+Lemma obj_data_nz : data = map (fun i => rnd (nth i flat d)) nz.
+Proof.
+  unfold data, obj_data, nz, obj_nzpos.
+  rewrite <- (filter_positions (fun e => negb (iszero e)) (map rnd flat) (rnd d)).
+  rewrite map_length.
+  rewrite (filter_ext (fun i => negb (iszero (nth i (map rnd flat) (rnd d))))
+                      (fun i => negb (iszero (rnd (nth i flat d))))).
+  - apply map_ext. intros i. apply map_nth.
+  - intros i. rewrite map_nth. reflexivity.
+Qed.
+
+Lemma obj_len_nz : length nz = length data.
+Proof. rewrite obj_data_nz, map_length. reflexivity. Qed.
+
+Lemma obj_nz_sorted : StronglySorted lt nz.
+Proof. unfold nz, obj_nzpos. apply ss_filter, ss_seq. Qed.
+
+Lemma obj_nz_in i : In i nz -> i < length flat /\ iszero (rnd (nth i flat d)) = false.
+Proof.
+  unfold nz, obj_nzpos. intros H. apply filter_In in H. destruct H as [H1 H2].
+  apply in_seq in H1. split; [lia|]. destruct (iszero (rnd (nth i flat d))); auto; discriminate.
+Qed.
+
+Lemma obj_data_nth i : i < length data -> nth i data d = rnd (nth (f i) flat d).
+Proof.
+  intros Hi. rewrite obj_data_nz. rewrite <- obj_len_nz in Hi.
+  apply (nth_map_lt (fun i => rnd (nth i flat d)) nz i 0 d Hi).
+Qed.
+
+Lemma obj_f_mono a b : a < length nz -> b < length nz -> Nat.leb (f a) (f b) = Nat.leb a b.
+Proof.
+  intros Ha Hb. unfold f. destruct (Nat.lt_trichotomy a b) as [L|[->|L]].
+  - pose proof (ss_nth _ nz 0 obj_nz_sorted a b L Hb).
+    rewrite (proj2 (Nat.leb_le a b)) by lia. apply Nat.leb_le. lia.
+  - rewrite !Nat.leb_refl. reflexivity.
+  - pose proof (ss_nth _ nz 0 obj_nz_sorted b a L Ha).
+    rewrite (proj2 (Nat.leb_gt a b)) by lia. apply Nat.leb_gt. lia.
+Qed.
+
+Lemma obj_f_inj a b : a < length nz -> b < length nz -> f a = f b -> a = b.
+Proof.
+  intros Ha Hb Q. pose proof (obj_f_mono a b Ha Hb) as M1. pose proof (obj_f_mono b a Hb Ha) as M2.
+  rewrite Q, Nat.leb_refl in M1, M2. symmetry in M1, M2. apply Nat.leb_le in M1, M2. lia.
+Qed.
+
+Lemma obj_idx0_lt i : In i idx0 -> i < length nz.
+Proof.
+  intros H. unfold idx0 in H. apply (npu_idx_mem cmp CO keys (key d)) in H.
+  rewrite obj_len_nz. unfold keys in H. rewrite map_length in H. tauto.
+Qed.
+
+Lemma obj_len_idx0 : length idx0 = length out.
 Proof.
   rewrite obj_out_eq, map_length. symmetry. apply Permutation_length, sort_nat_perm.
 Qed.
+Lemma obj_len_idx : length idx = length out.
+Proof. rewrite obj_idx_eq, map_length. apply obj_len_idx0. Qed.
 Lemma obj_len_inv : length inv = length data.
-Proof. rewrite obj_inv_eq, (npu_len_inv cmp keys). apply map_length. Qed.
+Proof. rewrite obj_inv_eq, map_length. unfold inv0. rewrite (npu_len_inv cmp keys). apply map_length. Qed.
 
-(* what idx and inv DO satisfy: they are consistent with each other relative
-   to the zero-free data and the KEY-SORTED order, not relative to
-   (flattened input, returned elements) *)
+(* np.sort commutes with the passage to positions of the flattened input *)
+Lemma obj_sort_idx : sort_nat idx = map f (sort_nat idx0).
+Proof.
+  rewrite obj_idx_eq. apply sort_nat_map_mono.
+  intros a b Ha Hb. apply obj_f_mono; apply obj_idx0_lt; auto.
+Qed.
+
+Lemma obj_sort_idx0_lt k : k < length out -> nth k (sort_nat idx0) 0 < length data.
+Proof.
+  intros Hk. rewrite <- obj_len_nz. apply obj_idx0_lt.
+  apply (Permutation_in _ (sort_nat_perm idx0)). apply nth_In.
+  rewrite (Permutation_length (sort_nat_perm idx0)), obj_len_idx0. exact Hk.
+Qed.
+
+(* INDEX ARRAY.  np.sort(idx) = positions, in the FLATTENED INPUT, of the
+   first occurrences among the kept entries, and selects exactly the returned
+   entries:  rnd (flat[np.sort(idx)[k]]) = out[k] *)
+Lemma obj_sort_idx_firsts : sort_nat idx = map f (firsts cmp keys (key d)).
+Proof. rewrite obj_sort_idx. unfold idx0. rewrite (npu_sort_idx cmp CO keys (key d)). reflexivity. Qed.
+
+Lemma obj_index_sorted k : k < length out ->
+  nth k out d = rnd (nth (nth k (sort_nat idx) 0) flat d).
+Proof.
+  intros Hk. rewrite obj_sort_idx.
+  assert (Hs : k < length (sort_nat idx0)).
+  { rewrite (Permutation_length (sort_nat_perm idx0)), obj_len_idx0. exact Hk. }
+  rewrite (nth_map_lt f (sort_nat idx0) k 0 0 Hs).
+  rewrite <- (obj_data_nth _ (obj_sort_idx0_lt k Hk)).
+  rewrite obj_out_eq. apply (nth_map_lt (fun i => nth i data d) (sort_nat idx0) k 0 d Hs).
+Qed.
+
+Lemma obj_idx_nth k : k < length idx -> nth k idx 0 = f (nth k idx0 0).
+Proof.
+  intros Hk. rewrite obj_idx_eq in *. rewrite map_length in Hk.
+  apply (nth_map_lt f idx0 k 0 0 Hk).
+Qed.
+
+(* every idx[k] is a position of the flattened input holding a kept entry *)
+Lemma obj_idx_valid k : k < length idx ->
+  nth k idx 0 < length flat /\ iszero (rnd (nth (nth k idx 0) flat d)) = false.
+Proof.
+  intros Hk. rewrite (obj_idx_nth k Hk). apply obj_nz_in. unfold f. apply nth_In.
+  apply obj_idx0_lt. apply nth_In. rewrite obj_idx_eq, map_length in Hk. exact Hk.
+Qed.
+
+(* what remains of the finding: idx itself lists these positions in
+   increasing KEY order, not in the order of the returned entries *)
+Lemma obj_idx_key_order a b : a < b -> b < length idx ->
+  cmp (key (rnd (nth (nth a idx 0) flat d))) (key (rnd (nth (nth b idx 0) flat d))) = Lt.
+Proof.
+  intros Hab Hb. rewrite (obj_idx_nth a) by lia. rewrite (obj_idx_nth b Hb).
+  assert (Hb0 : b < length idx0) by (rewrite obj_idx_eq, map_length in Hb; exact Hb).
+  assert (La : nth a idx0 0 < length data).
+  { rewrite <- obj_len_nz. apply obj_idx0_lt, nth_In. lia. }
+  assert (Lb : nth b idx0 0 < length data).
+  { rewrite <- obj_len_nz. apply obj_idx0_lt, nth_In. lia. }
+  rewrite <- (obj_data_nth _ La), <- (obj_data_nth _ Lb).
+  pose proof (npu_idx_lt cmp CO keys (key d) a b Hab Hb0) as L.
+  unfold keys in L. rewrite !(map_nth key data d) in L. exact L.
+Qed.
+
 Lemma obj_idx_partial :
-  Permutation idx (firsts cmp keys (key d)) /\
-  (forall j, j < length data ->
-     keq cmp (key (nth (nth (nth j inv 0) idx 0) data d)) (key (nth j data d)) = true) /\
+  (forall k, k < length idx ->
+     nth k idx 0 < length flat /\ iszero (rnd (nth (nth k idx 0) flat d)) = false) /\
+  sort_nat idx = map (fun i => nth i (obj_nzpos rnd iszero d flat) 0) (firsts cmp (map key data) (key d)) /\
+  (forall k, k < length out -> nth k out d = rnd (nth (nth k (sort_nat idx) 0) flat d)) /\
   (forall a b, a < b -> b < length idx ->
-     cmp (key (nth (nth a idx 0) data d)) (key (nth (nth b idx 0) data d)) = Lt).
+     cmp (key (rnd (nth (nth a idx 0) flat d))) (key (rnd (nth (nth b idx 0) flat d))) = Lt).
 Proof.
-  split; [|split].
-  - rewrite <- (npu_sort_idx cmp CO keys (key d)), <- obj_idx_eq. symmetry. apply sort_nat_perm.
-  - intros j Hj. assert (Hj' : j < length keys) by (unfold keys; rewrite map_length; auto).
-    destruct (npu_idx_inv_keq cmp CO keys (key d) j Hj') as [_ H].
-    unfold keys in H. rewrite !(map_nth key data d) in H. exact H.
-  - intros a b Hab Hb. rewrite obj_idx_eq in Hb. rewrite (npu_len_idx cmp keys) in Hb.
-    assert (Ha : a < length (usort cmp keys)) by lia.
-    destruct (npu_idx_spec cmp CO keys (key d) a Ha) as [_ [Ea _]].
-    destruct (npu_idx_spec cmp CO keys (key d) b Hb) as [_ [Eb _]].
-    fold idx in Ea, Eb. rewrite obj_idx_eq. unfold keys in *.
-    rewrite !(map_nth key data d) in Ea, Eb.
-    pose proof (ss_nth _ _ (key d) (usort_sorted cmp CO (map key data)) a b Hab Hb) as L.
-    unfold slt in L. apply (keq_true cmp) in Ea. apply (keq_true cmp) in Eb.
-    rewrite (co_eq _ CO _ _ _ Ea). rewrite (co_sym _ CO) , (co_eq _ CO _ _ _ Eb), <- (co_sym _ CO). exact L.
+  split; [exact obj_idx_valid|]. split; [exact obj_sort_idx_firsts|].
+  split; [exact obj_index_sorted|exact obj_idx_key_order].
 Qed.
 
-(* OUTSIDE the finding's stratum -- no row is dropped and the keys first
-   appear in increasing order (idx already sorted) -- the documented
-   contracts hold *)
+(* OUTSIDE the remaining finding's stratum -- the keys first appear in
+   increasing order (idx already sorted) -- the documented index contract
+   holds, zero rows or not *)
 Lemma obj_index_outside :
-  data = map rnd flat -> StronglySorted le idx ->
-  forall k, k < length out -> nth k out d = nth (nth k idx 0) (map rnd flat) d.
+  StronglySorted le idx ->
+  forall k, k < length out -> nth k out d = rnd (nth (nth k idx 0) flat d).
+Proof. intros Hs k Hk. rewrite (obj_index_sorted k Hk), (sort_nat_id idx Hs). reflexivity. Qed.
+
+(* INVERSE ARRAY: one entry per kept entry of the flattened input,
+   out[inv[j]] = data[j] up to the key -- on every input *)
+Lemma obj_inverse j : j < length data ->
+  nth j inv 0 < length out /\
+  keq cmp (key (nth (nth j inv 0) out d)) (key (nth j data d)) = true.
 Proof.
-  intros Hd Hs k Hk. rewrite <- Hd. rewrite obj_out_eq in *. rewrite (sort_nat_id idx Hs) in *.
-  rewrite map_length in Hk. apply (nth_map_lt (fun i => nth i data d) idx k 0 d Hk).
+  intros Hj. assert (Hj' : j < length keys) by (unfold keys; rewrite map_length; auto).
+  destruct (npu_inv_spec cmp CO keys (key d) j Hj') as [H0 _]. fold inv0 in H0.
+  rewrite <- (npu_len_idx cmp keys) in H0. fold idx0 in H0.
+  set (u := nth j inv0 0) in *.
+  assert (Hu : u < length idx) by (rewrite obj_idx_eq, map_length; exact H0).
+  destruct (argsort_argsort_rank idx u Hu) as [R1 R2].
+  assert (Hinv : nth j inv 0 = nth u (argsort_nat (argsort_nat idx)) 0).
+  { rewrite obj_inv_eq.
+    rewrite (nth_map_lt (fun u0 => nth u0 (argsort_nat (argsort_nat idx)) 0) inv0 j 0 0).
+    - reflexivity.
+    - unfold inv0. rewrite (npu_len_inv cmp keys). exact Hj'. }
+  rewrite Hinv. set (m := nth u (argsort_nat (argsort_nat idx)) 0) in *.
+  assert (Hm : m < length out) by (rewrite <- obj_len_idx; exact R1).
+  split; [exact Hm|].
+  assert (Hs : m < length (sort_nat idx0)).
+  { rewrite (Permutation_length (sort_nat_perm idx0)), obj_len_idx0. exact Hm. }
+  (* sort_nat idx0 [m] = idx0 [u] *)
+  assert (Q : nth m (sort_nat idx0) 0 = nth u idx0 0).
+  { apply obj_f_inj.
+    - rewrite obj_len_nz. apply obj_sort_idx0_lt. exact Hm.
+    - apply obj_idx0_lt, nth_In. exact H0.
+    - rewrite obj_sort_idx in R2. rewrite (nth_map_lt f (sort_nat idx0) m 0 0 Hs) in R2.
+      rewrite R2. apply obj_idx_nth. exact Hu. }
+  rewrite obj_out_eq. rewrite (nth_map_lt (fun i => nth i data d) (sort_nat idx0) m 0 d Hs). rewrite Q.
+  destruct (npu_idx_inv_keq cmp CO keys (key d) j Hj') as [_ H].
+  fold idx0 inv0 in H. fold u in H. unfold keys in H. rewrite !(map_nth key data d) in H. exact H.
 Qed.
 
+Lemma obj_inverse_contract :
+  length inv = length data /\
+  forall j, j < length data ->
+    nth j inv 0 < length out /\ keq cmp (key (nth (nth j inv 0) out d)) (key (nth j data d)) = true.
+Proof. split; [exact obj_len_inv|exact obj_inverse]. Qed.
+
+(* when no row is dropped this is the documented contract w.r.t. the
+   flattened input *)
 Lemma obj_inverse_outside :
-  data = map rnd flat -> StronglySorted le idx ->
+  data = map rnd flat ->
   length inv = length flat /\
   forall j, j < length flat ->
     nth j inv 0 < length out /\
     keq cmp (key (nth (nth j inv 0) out d)) (key (nth j (map rnd flat) d)) = true.
 Proof.
-  intros Hd Hs. split.
+  intros Hd. split.
   - rewrite obj_len_inv, Hd. apply map_length.
-  - intros j Hj. assert (Hj' : j < length keys).
-    { unfold keys. rewrite map_length, Hd, map_length. auto. }
-    destruct (npu_inv_spec cmp CO keys (key d) j Hj') as [H0 _].
-    assert (H1 : nth j inv 0 < length out).
-    { rewrite <- obj_len_idx, obj_idx_eq, (npu_len_idx cmp keys), obj_inv_eq. exact H0. }
-    split; auto.
-    rewrite (obj_index_outside Hd Hs _ H1). rewrite <- Hd.
-    destruct obj_idx_partial as [_ [H _]]. apply H. rewrite Hd, map_length. auto.
+  - intros j Hj. rewrite <- Hd. apply obj_inverse. rewrite Hd, map_length. exact Hj.
 Qed.
 End ObjSpec.
 
@@ -727,28 +954,6 @@ Proof.
 Qed.
 End RotSpec.
 
-(* np.unique: the first-occurrence rows come in strictly increasing key order *)
-Section NpUniqueSpec3.
-Context {K : Type} (cmp : K -> K -> comparison) (CO : cmp_order cmp).
-Lemma co_eq_r x y z : cmp x y = Eq -> cmp z x = cmp z y.
-Proof. intros H. rewrite (co_sym _ CO x z), (co_sym _ CO y z), (co_eq _ CO x y z H). auto. Qed.
-
-Lemma npu_idx_lt (rows : list K) (d : K) a b :
-  let idx := snd (fst (np_unique cmp rows)) in
-  a < b -> b < length idx ->
-  cmp (nth (nth a idx 0) rows d) (nth (nth b idx 0) rows d) = Lt.
-Proof.
-  intros idx Hab Hb. unfold idx in Hb. rewrite (npu_len_idx cmp rows) in Hb.
-  assert (Ha : a < length (usort cmp rows)) by lia.
-  destruct (npu_idx_spec cmp CO rows d a Ha) as [_ [Ea _]].
-  destruct (npu_idx_spec cmp CO rows d b Hb) as [_ [Eb _]].
-  fold idx in Ea, Eb.
-  pose proof (ss_nth _ _ d (usort_sorted cmp CO rows) a b Hab Hb) as L. unfold slt in L.
-  apply (keq_true cmp) in Ea. apply (keq_true cmp) in Eb.
-  rewrite (co_eq _ CO _ _ _ Ea), (co_eq_r _ _ _ Eb). exact L.
-Qed.
-End NpUniqueSpec3.
-
 (* ------------------------------------------------------------ Miller.unique *)
 Section MillerSpec.
 Context {E K K2 : Type} (cmp : K -> K -> comparison) (cmp2 : K2 -> K2 -> comparison)
@@ -756,9 +961,11 @@ Context {E K K2 : Type} (cmp : K -> K -> comparison) (cmp2 : K2 -> K2 -> compari
         (rnd : E -> E) (iszero : E -> bool) (key : E -> K) (d : E) (okey : E -> K2).
 Variable flat : list E.
 Let v := fst (fst (obj_unique cmp rnd iszero key d flat)).
+Let idxb := snd (fst (obj_unique cmp rnd iszero key d flat)).
 Let idx2 := snd (fst (np_unique cmp2 (map okey v))).
 Let inv2 := snd (np_unique cmp2 (map okey v)).
 Let out2 := fst (miller_unique cmp cmp2 rnd iszero key d okey true flat).
+Let idxm := snd (miller_unique cmp cmp2 rnd iszero key d okey true flat).
 
 (* without symmetry Miller.unique forwards Object3d.unique (so it inherits
    every theorem and every defect of the base class) *)
@@ -768,7 +975,8 @@ Lemma miller_nosym :
 Proof. reflexivity. Qed.
 
 Lemma miller_sym_eq :
-  miller_unique cmp cmp2 rnd iszero key d okey true flat = (map (fun i => nth i v d) (rev idx2), idx2).
+  miller_unique cmp cmp2 rnd iszero key d okey true flat
+  = (map (fun i => nth i v d) (rev idx2), map (fun i => nth i (sort_nat idxb) 0) (rev idx2)).
 Proof. reflexivity. Qed.
 
 Lemma miller_out2 : out2 = map (fun i => nth i v d) (rev idx2). Proof. reflexivity. Qed.
@@ -783,19 +991,36 @@ Proof.
   fold idx2 in H. rewrite map_length in H. auto.
 Qed.
 
-(* what the returned index array IS: read backwards it selects the returned
-   vectors from the result of the base-class unique (not from the input) *)
-Lemma miller_index_partial k : k < length out2 ->
+Lemma miller_sel k : k < length out2 ->
   nth k out2 d = nth (nth k (rev idx2) 0) v d.
 Proof.
   intros Hk. rewrite miller_out2 in *. rewrite map_length in Hk.
   apply (nth_map_lt (fun i => nth i v d) (rev idx2) k 0 d Hk).
 Qed.
 
+(* INDEX ARRAY: the k-th returned vector is the rounded entry at position
+   idx[k] of the flattened input *)
+Lemma miller_sym_index k : k < length out2 ->
+  length idxm = length out2 /\
+  nth k out2 d = rnd (nth (nth k idxm 0) flat d).
+Proof.
+  intros Hk. split.
+  - unfold idxm. rewrite miller_sym_eq. simpl snd. rewrite miller_out2, !map_length. reflexivity.
+  - rewrite (miller_sel k Hk).
+    assert (Hr : k < length (rev idx2)) by (rewrite rev_length, <- miller_len; exact Hk).
+    assert (Hv : nth k (rev idx2) 0 < length v).
+    { assert (Hin : In (nth k (rev idx2) 0) (rev idx2)) by (apply nth_In; exact Hr).
+      apply in_rev in Hin. apply (In_nth _ _ 0) in Hin. destruct Hin as [i [Hi <-]].
+      apply miller_idx2_lt. exact Hi. }
+    unfold idxm. rewrite miller_sym_eq. simpl snd.
+    rewrite (nth_map_lt (fun i => nth i (sort_nat idxb) 0) (rev idx2) k 0 0 Hr).
+    apply (obj_index_sorted cmp CO rnd iszero key d flat). exact Hv.
+Qed.
+
 Lemma miller_nth k : k < length out2 ->
   nth k out2 d = nth (nth (length idx2 - S k) idx2 0) v d.
 Proof.
-  intros Hk. rewrite (miller_index_partial k Hk). rewrite miller_len in Hk.
+  intros Hk. rewrite (miller_sel k Hk). rewrite miller_len in Hk.
   rewrite rev_nth by auto. auto.
 Qed.
 
